@@ -283,6 +283,23 @@ func printHarness(hr *sym.HarnessResult) {
 			}
 		}
 	}
+	if os.Getenv("GOSMT_FORKS") != "" {
+		type kv struct {
+			k string
+			v int
+		}
+		var kvs []kv
+		for k, v := range hr.ForkSites {
+			kvs = append(kvs, kv{k, v})
+		}
+		sort.Slice(kvs, func(i, j int) bool { return kvs[i].v > kvs[j].v })
+		for i, e := range kvs {
+			if i > 25 {
+				break
+			}
+			fmt.Printf("   forks %7d  %s\n", e.v, e.k)
+		}
+	}
 	if os.Getenv("GOSMT_VERBOSE") != "" {
 		for _, k := range sortedKeys(hr.Events) {
 			fmt.Printf("   event x%d: %s\n", hr.Events[k], k)
